@@ -299,6 +299,37 @@ def r3(ctx):
                 key=di.full + ' | last group gets remainder')
 
 
+def _limit_selection(di, expr, mask, line):
+    """None if every m_lim[...] read in `expr` (locals expanded) selects the
+    per-type limit of *all* members chosen by `mask` (the selection the flows
+    are stored with); else the reason."""
+    e = U.expand_locals(di.node, expr, before=line, keep=('m', 'm_lim'))
+    mask_e = ' '.join(src(U.expand_locals(
+        di.node, ast.parse(mask, mode='eval').body, before=line,
+        keep=('m', 'm_lim'))).split())
+    reads = [n for n in ast.walk(e) if isinstance(n, ast.Subscript)
+             and src(n.value) == 'm_lim']
+    if not reads:
+        return 'no read of m_lim in ' + src(e)[:80]
+    for r in reads:
+        sel = ' '.join(src(r.slice).split())
+        if mask not in sel and mask_e not in sel:
+            return 'm_lim is indexed by %s, which does not select with the ' \
+                   'group mask %s' % (sel[:80], mask)
+        for sub in ast.walk(r.slice):
+            if isinstance(sub, ast.Subscript) and (
+                    mask in src(sub.value) or mask_e in ' '.join(
+                        src(sub.value).split())):
+                try:
+                    one = isinstance(U.const_eval(sub.slice), int)
+                except ValueError:
+                    one = False
+                if one:
+                    return 'only element %s of the group\'s members is ' \
+                           'looked up (%s)' % (src(sub.slice), sel[:80])
+    return None
+
+
 def r4(ctx):
     di = ctx.repo.func('orificing', 'Orificing.distribute')
     g = cfg_of(di)
@@ -323,6 +354,30 @@ def r4(ctx):
                             val.id) and 'm_lim' in src(s.value)]
                     if cmp_ and clamp:
                         ok = True
+                        mask = ' '.join(src(t.slice).split())
+                        for c in cmp_:
+                            why = _limit_selection(di, c, mask, st.lineno)
+                            ctx.require(
+                                why is None, 'C20.R4', di, c,
+                                'the limit compared with a group\'s flows '
+                                'must be the limit of every member of that '
+                                'group: %s' % why, key='%s | limit selection '
+                                '%s' % (di.full, src(t)))
+                        for s_ in clamp:
+                            v = s_.value
+                            fn = call_name(v) if isinstance(v, ast.Call) \
+                                else None
+                            good = fn in ('np.min', 'min', 'np.amin',
+                                          'np.minimum') or (
+                                isinstance(v, ast.Call) and isinstance(
+                                    v.func, ast.Attribute) and
+                                v.func.attr == 'min')
+                            ctx.require(
+                                good, 'C20.R4', di, s_,
+                                'a limited group is clamped to the smallest '
+                                'limit of its members (min), got %s'
+                                % src(v)[:60],
+                                key='%s | clamp value' % di.full)
         # (b) or: a later comparison of the stored slice with the limit that
         # ends in an error, on every path to the return
         if not ok:
@@ -341,6 +396,15 @@ def r4(ctx):
                             and body_err:
                         # guarded by m_lim is not None is fine
                         ok = True
+                        mask = ' '.join(src(t.slice).split())
+                        why = _limit_selection(di, tn.expr, mask,
+                                               tn.stmt.lineno)
+                        ctx.require(
+                            why is None, 'C20.R4', di, tn.expr,
+                            'the limit compared with a group\'s flows must '
+                            'be the limit of every member of that group: %s'
+                            % why, key='%s | limit selection %s'
+                            % (di.full, src(t)))
         ctx.require(ok, 'C20.R4', di, st,
                     'with a pressure-drop limit set, the flow stored by this '
                     'statement is never compared with the group\'s limit '
